@@ -9,16 +9,29 @@
    first length is 0.0, the new path is a prefix of the natural path plus one
    end point on the ray of the segment the cut falls in.
 
-   NOT proved (T16b-d of DESIGN; the property is PARTIAL):
-     - the geometric reading in exact arithmetic (the end point lies at
-       distance L - len_{k-1} from vertex k-1, so the polyline length is L);
+   Proved at the end of this file (T16d, T16b):
+     - T16d [IEEE]: for a path with finite vertices and a zero seed
+       (optimized_len = +0.0: every path that is not an osu!-mode Catmull path)
+       every outcome of calculate_length is a list that starts at 0.0, holds
+       only +0 / positive finite / +inf values (no NaN, nothing negative) and
+       is NON-DECREASING for the IEEE <=; all entries are finite as soon as
+       the natural total is (no intermediate overflow: e.g. finite f32 segment
+       lengths and at most 2^53 vertices) and the requested length is finite;
+     - T16b [exact arithmetic, on the formula shared with the model]: when
+       path[k] <> path[k-1] the adjusted end point lies on the ray from
+       path[k-1] through path[k] at distance exactly L - lengths[k-1]; on the
+       segment when cutting, beyond path[k] in the segment's own direction when
+       extending; the cumulative polyline lengths of the new path are the first
+       k natural ones followed by L, so its polyline length is exactly L.
        (T16c -- polyline_len(simplified Catmull) + optimized_len =
-       polyline_len(unsimplified), optimized_len >= 0 -- IS proved below, over the
-       reals, on the loop shared with the model);
-     - monotonicity / finiteness of the cumulative lengths under rounding.
-   These are monitored by the oracle of harness/src/c16.rs (cut/extension
-   geometry in f64, lengths start at 0 / monotone within 1e-5 / finite,
-   osu!-mode total unchanged).
+       polyline_len(unsimplified), optimized_len >= 0 -- is proved over the
+       reals, on the loop shared with the model.)
+   Still NOT proved (the property stays PARTIAL): monotonicity with a non-zero
+   osu!-mode Catmull surplus (the surplus can be negative by rounding, "of the
+   order of 1e-5" in the property text), and the IEEE rounding error of the
+   adjusted end point (T16b is exact arithmetic).  These are monitored by the
+   oracle of harness/src/c16.rs (cut/extension geometry in f64, lengths start
+   at 0 / monotone within 1e-5 / finite, osu!-mode total unchanged).
 
    Deviations of the code from the property text, both recorded as known
    findings with witnesses below: D9 (case (i) with natural <> L) and D11. *)
@@ -203,3 +216,212 @@ Example C16_D11_other_mode :
   | _ => (false, true)
   end = (true, false).
 Proof. vm_compute. reflexivity. Qed.
+
+(* ================================================================== *)
+(* T16d -- monotonicity and finiteness under rounding (IEEE)           *)
+(* ================================================================== *)
+From Flocq Require Import IEEE754.BinarySingleNaN.
+From RM Require Import Proofs.LengthMono Proofs.LengthBound Proofs.AdjustExact.
+
+(* the predicates used below, spelled out *)
+Theorem C16_T16d_predicates :
+  (forall p, fin_pos p <-> is_finite (px p) = true /\ is_finite (py p) = true) /\
+  (* +0.0, a positive finite number or +infinity *)
+  (forall x : F64, pos64 x <-> is_nan x = false /\ Bsign x = false) /\
+  (forall l, nondec l <->
+     forall i x y, nth_error l i = Some x -> nth_error l (S i) = Some y -> D.le x y = true) /\
+  (forall l, lengths_ok l <-> (exists t, l = D.zero :: t) /\ nondec l /\ Forall pos64 l) /\
+  (forall pts, no_catmull pts <-> Forall (fun cp => pc_type cp <> Some Catmull) pts).
+Proof. split; [|split; [|split; [|split]]]; intros; reflexivity. Qed.
+Print Assumptions C16_T16d_predicates.
+
+(* one step of the running sum: adding an f32 segment length (widened to f64)
+   to an accumulator of the class never gives NaN and never decreases it --
+   overflow to +inf included *)
+Theorem C16_adding_a_length_never_decreases :
+  forall a b : F64, pos64 a -> pos64 b -> pos64 (D.add a b) /\ D.le a (D.add a b) = true.
+Proof. exact D_add_pos. Qed.
+Print Assumptions C16_adding_a_length_never_decreases.
+
+Theorem C16_segment_length_is_nonnegative :
+  forall a b, fin_pos a -> fin_pos b -> pos64 (f64_of_f32 (Curve.plen (psub b a))).
+Proof. exact seglen_pos. Qed.
+Print Assumptions C16_segment_length_is_nonnegative.
+
+(* the natural cumulative lengths with a zero seed *)
+Theorem C16_natural_lengths_nondecreasing :
+  forall path, Forall fin_pos path ->
+  nondec (natural path D.zero) /\ Forall pos64 (natural path D.zero) /\
+  pos64 (natural_len path D.zero) /\
+  (is_finite (natural_len path D.zero) = true ->
+   Forall (fun v => is_finite v = true) (natural path D.zero)).
+Proof. exact natural_nondecreasing. Qed.
+Print Assumptions C16_natural_lengths_nondecreasing.
+
+(* EVERY outcome of calculate_length with a zero seed, whatever the requested
+   length (None, NaN, negative, inside, beyond): starts at 0.0, non-decreasing,
+   no NaN / negative entry; finite entries without intermediate overflow.  In
+   the adjusting case the entry before L is strictly below L (cut-index
+   characterisation of T16a), in the extension case as well *)
+Theorem C16_lengths_nondecreasing :
+  forall path e path' lens,
+  Forall fin_pos path -> calculate_length path e D.zero = Done (path', lens) ->
+  lengths_ok lens /\
+  (is_finite (natural_len path D.zero) = true -> (forall L, e = Some L -> is_finite L = true) ->
+   Forall (fun v => is_finite v = true) lens).
+Proof. exact calculate_length_nondecreasing. Qed.
+Print Assumptions C16_lengths_nondecreasing.
+
+(* pairwise form: lengths[i] <= lengths[j] for i <= j *)
+Theorem C16_lengths_ordered :
+  forall l, nondec l -> Forall pos64 l ->
+  forall i j x y, (i <= j)%nat -> nth_error l i = Some x -> nth_error l j = Some y -> D.le x y = true.
+Proof. exact nondec_le. Qed.
+Print Assumptions C16_lengths_ordered.
+
+(* a concrete condition for "no intermediate overflow": finite f32 segment
+   lengths and at most 2^53 vertices (the sum of k binary32 numbers is at most
+   k * 2^128) *)
+Theorem C16_no_overflow_condition :
+  forall path, Forall fin_pos path -> segs_finite path -> (Z.of_nat (length path) <= 2 ^ 53)%Z ->
+  is_finite (natural_len path D.zero) = true.
+Proof. exact natural_len_finite. Qed.
+Print Assumptions C16_no_overflow_condition.
+
+(* ... which a coordinate bound guarantees: every coordinate finite with
+   magnitude at most 2^60 (difference <= 2^61, squares <= 2^122, sum <= 2^123,
+   root <= 2^62: every f32 segment length is finite) *)
+Theorem C16_coordinate_bound_gives_finite_segments :
+  (forall p k, coord_le p k <->
+     (is_finite (px p) = true /\ (Rabs (B2R (px p)) <= Raux.bpow Zaux.radix2 k)%R) /\
+     (is_finite (py p) = true /\ (Rabs (B2R (py p)) <= Raux.bpow Zaux.radix2 k)%R)) /\
+  (forall a b, coord_le a 60 -> coord_le b 60 -> is_finite (Curve.plen (psub b a)) = true) /\
+  (forall path, Forall (fun p => coord_le p 60) path -> segs_finite path).
+Proof.
+  split; [intros; reflexivity|]. split; [exact plen_finite_of_bound|exact segs_finite_of_bound].
+Qed.
+Print Assumptions C16_coordinate_bound_gives_finite_segments.
+
+(* T16d with the concrete side condition: |coordinate| <= 2^60, at most 2^53
+   vertices, finite requested length: every outcome of calculate_length (zero
+   seed) starts at 0.0, is non-decreasing and every entry is finite *)
+Theorem C16_lengths_nondecreasing_and_finite :
+  forall path e path' lens,
+  Forall (fun p => coord_le p 60) path -> (Z.of_nat (length path) <= 2 ^ 53)%Z ->
+  (forall L, e = Some L -> is_finite L = true) ->
+  calculate_length path e D.zero = Done (path', lens) ->
+  lengths_ok lens /\ Forall (fun v => is_finite v = true) lens.
+Proof. exact lengths_finite_of_bound. Qed.
+Print Assumptions C16_lengths_nondecreasing_and_finite.
+
+(* the seed IS zero outside the osu!-mode Catmull simplification *)
+Theorem C16_seed_is_zero_outside_osu_catmull :
+  forall lm fuel mode pts path opt,
+  calculate_path_L1 lm fuel mode pts = Done (path, opt) ->
+  is_osu mode = false \/ no_catmull pts -> opt = D.zero.
+Proof. exact calculate_path_L1_seed. Qed.
+Print Assumptions C16_seed_is_zero_outside_osu_catmull.
+
+(* hence on computed curves *)
+Theorem C16_curve_lengths_nondecreasing_partial :
+  forall lm fuel mode pts e c,
+  curve_L1 lm fuel mode pts e = Done c ->
+  is_osu mode = false \/ no_catmull pts ->
+  exists path, calculate_path_L1 lm fuel mode pts = Done (path, D.zero) /\
+    (Forall fin_pos path ->
+     lengths_ok (c_lengths c) /\
+     (is_finite (natural_len path D.zero) = true -> (forall L, e = Some L -> is_finite L = true) ->
+      Forall (fun v => is_finite v = true) (c_lengths c))).
+Proof. exact curve_lengths_nondecreasing. Qed.
+Print Assumptions C16_curve_lengths_nondecreasing_partial.
+(* partial: osu!-mode Catmull curves (non-zero seed) are not covered *)
+
+(* ================================================================== *)
+(* T16b -- the adjusted end point in exact arithmetic                  *)
+(* ================================================================== *)
+
+(* the model's expressions are the IEEE instances of the formulas read below *)
+Theorem C16_model_adjust_formula :
+  forall pp pe e lp,
+  padd pp (pmul (pnormalize (psub pe pp)) (f32_of_f64 (D.sub e lp))) =
+  let '(x, y) := adjust_point_g S.add S.sub S.mul S.div S.one D.sqrt D.sub f64_of_f32 f32_of_f64
+                                (px pp) (py pp) (px pe) (py pe) e lp in mkPos x y.
+Proof. exact model_adjust_end. Qed.
+Print Assumptions C16_model_adjust_formula.
+
+Theorem C16_model_running_sums :
+  forall path acc,
+  cum_lengths acc path = cum_g D.add (fun curr next => f64_of_f32 (Curve.plen (psub next curr))) acc path.
+Proof. exact model_cum_lengths. Qed.
+Print Assumptions C16_model_running_sums.
+
+(* real instances: adjust_R = adjust_point_g over R (identity conversions),
+   edist = Euclidean distance, cumlen path = 0 :: running sums of edist,
+   poly_len path = the final sum *)
+Theorem C16_real_instances :
+  (forall pp pe L lp, adjust_R pp pe L lp =
+     adjust_point_g Rplus Rminus Rmult Rdiv 1%R sqrt Rminus (fun x => x) (fun x => x)
+                    (fst pp) (snd pp) (fst pe) (snd pe) L lp) /\
+  (forall a b, edist a b = sqrt ((fst b - fst a) ^ 2 + (snd b - snd a) ^ 2)) /\
+  (forall path, cumlen path = 0%R :: fst (cum_g Rplus edist 0%R path)) /\
+  (forall path, poly_len path = snd (cum_g Rplus edist 0%R path)).
+Proof. repeat split. Qed.
+Print Assumptions C16_real_instances.
+
+(* on the ray from path[k-1] through path[k], exactly L - lengths[k-1] away *)
+Theorem C16_adjusted_end_on_ray :
+  forall pp pe L lp, pp <> pe -> (lp <= L)%R ->
+  let p' := adjust_R pp pe L lp in
+  (exists t, (0 <= t)%R /\
+     p' = (fst pp + t * (fst pe - fst pp), snd pp + t * (snd pe - snd pp))%R) /\
+  edist pp p' = (L - lp)%R.
+Proof. exact adjust_on_ray. Qed.
+Print Assumptions C16_adjusted_end_on_ray.
+
+(* cut: on the segment [path[k-1], path[k]] *)
+Theorem C16_cut_lies_on_segment :
+  forall pp pe L lp, pp <> pe -> (lp <= L <= lp + edist pp pe)%R ->
+  let p' := adjust_R pp pe L lp in
+  (exists w, (0 <= w <= 1)%R /\
+     p' = ((1 - w) * fst pp + w * fst pe, (1 - w) * snd pp + w * snd pe)%R) /\
+  edist pp p' = (L - lp)%R /\ edist p' pe = (lp + edist pp pe - L)%R.
+Proof. exact adjust_cut_on_segment. Qed.
+Print Assumptions C16_cut_lies_on_segment.
+
+(* extension: the last segment is extended in its own direction *)
+Theorem C16_extension_continues_last_segment :
+  forall pp pe L lp, pp <> pe -> (lp + edist pp pe <= L)%R ->
+  let p' := adjust_R pp pe L lp in
+  (exists w, (1 <= w)%R /\
+     p' = (fst pp + w * (fst pe - fst pp), snd pp + w * (snd pe - snd pp))%R) /\
+  edist pp p' = (L - lp)%R /\ edist pe p' = (L - (lp + edist pp pe))%R.
+Proof. exact adjust_extension. Qed.
+Print Assumptions C16_extension_continues_last_segment.
+
+(* the new path (first k natural vertices + the adjusted end point) has the
+   cumulative polyline lengths calculate_length returns -- the first k natural
+   ones, then L -- and polyline length exactly L *)
+Theorem C16_adjusted_path_has_length_L :
+  forall (path : list P2) k pp pe lp L,
+  (1 <= k < length path)%nat ->
+  nth_error path (Nat.pred k) = Some pp -> nth_error path k = Some pe ->
+  nth_error (cumlen path) (Nat.pred k) = Some lp ->
+  pp <> pe -> (lp <= L)%R ->
+  let path' := firstn k path ++ [adjust_R pp pe L lp] in
+  cumlen path' = firstn k (cumlen path) ++ [L] /\ poly_len path' = L.
+Proof. exact adjusted_path_lengths. Qed.
+Print Assumptions C16_adjusted_path_has_length_L.
+
+(* the degenerate case path[k] = path[k-1] is excluded above for a reason: the
+   formula returns path[k-1] itself (IEEE: 0 * inf = NaN, finding D11), so the
+   new path's length is lengths[k-1], not L *)
+Theorem C16_degenerate_direction_excluded :
+  forall pp L lp, adjust_R pp pp L lp = pp.
+Proof. exact adjust_degenerate. Qed.
+Print Assumptions C16_degenerate_direction_excluded.
+
+(* non-vacuity: (0,0) (3,4) (8,16), L = 9: the second segment is cut 4/13 of the way *)
+Theorem C16_exact_cut_example :
+  adjust_R (3, 4)%R (8, 16)%R 9%R 5%R = (3 + 5 * (4 / 13), 4 + 12 * (4 / 13))%R.
+Proof. exact adjust_example. Qed.
+Print Assumptions C16_exact_cut_example.
